@@ -47,6 +47,39 @@ CLAIMED = {
                 tech="provenance terms of the radio_status sub-structure per (type, selector, time-out) partition vs. ITU comm-state tables",
                 text="For types 1,2,3,4,9,11,18 the scheme, the 19-bit state position, SOTDMA/ITDMA field layout and the time-out -> sub-message "
                      "map are compared with ITU-R M.1371-5 for all 8 time-out values and both selector values. Known finding K1 (type 9)."),
+    "C02": dict(cat="proof", ref="5/C02",
+                tech="must-pass-through rule on the extracted paths of AisParser::parse + LeafMap of the checksum function + operand provenance",
+                text="On all extracted paths of AisParser::parse a successful checksum comparison precedes every store through self and every "
+                     "Ok; the checksum function's table over a symbolic slice/byte is Ok iff byte == xor-fold of the whole slice; its operands are "
+                     "the line between the start delimiter and the first '*' and the <=0xFF hex value after the terminating '*'."),
+    "C05": dict(cat="model_checking", ref="5/C05",
+                tech="extraction of the transition relation of AisParser::parse from MIR + exhaustive comparison of its guards/effects with a reference machine",
+                text="The transition relation (guards over k, n, s, ids; effects on sid/s/data; delivered payload; decode calls) is extracted from "
+                     "MIR with a symbolic parser state and compared with the reference reassembly machine on the whole guard domain "
+                     "(boundary classes quick, all of u8^3 x 6 id relations x decode x decode outcomes thorough). Holds for every history "
+                     "because the comparison is per transition from an arbitrary state."),
+    "C06": dict(cat="model_checking", ref="5/C06",
+                tech="same extracted relation vs. reference machine + explicit-state exploration of the extracted relation to a fixed point",
+                text="Equivalence with the reference machine on the whole guard domain, plus exploration of the extracted relation over all "
+                     "sequences of sentences (n<=4, ids {none,0,1}) to a fixed point of the abstract state space, checking that k>=2 is accepted "
+                     "only as direct continuation of an open group and every delivered payload is fragments 1..k of one group."),
+    "C07": dict(cat="translation_validation", ref="5/C07",
+                tech="field provenance on accepting paths vs. grammar roles; byte-string tables from MIR; decode-flag non-interference on cells",
+                text="Every AisSentence field's provenance term is compared with the grammar element the statement assigns to it; the talker "
+                     "and report-type tables are recovered from the From<&[u8]> MIR; decode on/off cells must differ only in the message."),
+    "C08": dict(cat="translation_validation", ref="5/C08 + Appendix C",
+                tech="regular language of the applied nom byte parsers (from the interpreter's event trace) -> DFA, equivalence with the reference DFA",
+                text="The union of the languages of all paths that pass the sentence grammar, with numeric side conditions and length bounds, is "
+                     "determinised and compared by product construction with the DFA of the reference grammar of C08; a disagreement is "
+                     "reported with a shortest distinguishing line. Exact for all byte strings (regular languages)."),
+    "C17": dict(cat="proof", ref="5/C17",
+                tech="frame rule on extracted paths (no store through self, post-state == pre-state) + item/type scan for shared state",
+                text="Every path rejected for form/checksum/sequencing and every unfragmented-sentence path has no store through self and an "
+                     "unchanged state term; no statics, no shared/borrowed fields in AisParser, no unsafe reachable from parse()."),
+    "C19": dict(cat="translation_validation", ref="5/C19",
+                tech="provenance term of AisSentence.message_type evaluated over all 256 first-byte values vs. the armoring alphabet",
+                text="The extracted term for sentence.message_type is compared with the 6-bit value of the first payload character for all "
+                     "byte values. Known finding K2 (the code takes the top six bits of the armored byte)."),
 }
 
 NA = {}
